@@ -722,6 +722,10 @@ def simplify_constrained_range(source: str) -> str:
         # iterates in an order that depends on object addresses: use the order of the source text.
         conditions = sorted(conditions, key=lambda node: (node.lineno, node.col_offset))
 
+        # The bounds below are tightened condition by condition, so the order matters. A set of nodes
+        # iterates in an order that depends on object addresses: use the order of the source text.
+        conditions = sorted(conditions, key=lambda node: (node.lineno, node.col_offset))
+
         gt_template = (
             ast.Compare(
                 left=ast.Name(id=target_name), ops=[ast.Gt()], comparators=[ast.Constant()]
